@@ -64,6 +64,19 @@ func floatLiteral() *rapid.Generator[string] {
 	return rapid.Custom(func(t *rapid.T) string {
 		var sb strings.Builder
 		sb.WriteString(rapid.SampledFrom([]string{"", "", "+", "-"}).Draw(t, "sign"))
+		if rapid.IntRange(0, 7).Draw(t, "compensated") == 0 {
+			// a long run of zeros in the mantissa compensated by a large written exponent: the value is ordinary
+			k := rapid.OneOf(rapid.IntRange(0, 40), rapid.IntRange(290, 340), rapid.IntRange(500, 530), rapid.IntRange(600, 700), rapid.IntRange(1000, 1100)).Draw(t, "zeros")
+			d := rapid.IntRange(-25, 25).Draw(t, "offset")
+			m := digits(1, 20).Draw(t, "mant")
+			if rapid.Bool().Draw(t, "small") {
+				sb.WriteString("0." + strings.Repeat("0", k) + m + "e" + stdstrconv.Itoa(k+d))
+			} else {
+				sb.WriteString(m + strings.Repeat("0", k) + rapid.SampledFrom([]string{"", ".", ".0"}).Draw(t, "dot") + "e" + stdstrconv.Itoa(-k+d))
+			}
+			sb.WriteString(rapid.SampledFrom([]string{"", "", "x", " "}).Draw(t, "junk"))
+			return sb.String()
+		}
 		switch rapid.IntRange(0, 3).Draw(t, "form") {
 		case 0:
 			sb.WriteString(digits(1, 40).Draw(t, "int"))
@@ -260,6 +273,13 @@ func checkParseFloat(t *rapid.T, s string) (string, bool) {
 		}
 	}
 	want, _ := stdstrconv.ParseFloat(m, 64)
+	if digits := strings.IndexAny(m+"e", "eE"); digits > 700 {
+		// the standard library keeps only 800 mantissa digits and then misplaces the decimal point of longer integers
+		// ("1"+1000 zeros+"e-1000" is 1e-201 there): for long mantissas the reference is math/big
+		if bf, _, err := new(big.Float).SetPrec(8192).Parse(m, 10); err == nil {
+			want, _ = bf.Float64()
+		}
+	}
 	if n != len(m) {
 		t.Fatalf("ParseFloat(%q) consumed %d bytes, the longest numeric prefix %q has %d (value %v)", s, n, m, len(m), got)
 	}
@@ -286,7 +306,7 @@ func checkParseFloat(t *rapid.T, s string) (string, bool) {
 }
 
 func TestProp_ParseFloat(t *testing.T) {
-	ev.Describe("ParseFloat", "float literals by construction (mantissa 1-40 digits, leading/trailing zero runs, exponent in [-400,400] or up to 18 digits) + trailing junk, and raw numeric-alphabet strings; oracle: longest prefix of the documented syntax by regexp, value vs strconv.ParseFloat within 1e-14 relative, Inf/0 must match; non-trivial = a literal matched")
+	ev.Describe("ParseFloat", "float literals by construction (mantissa 1-40 digits, leading/trailing zero runs, exponent in [-400,400] or up to 18 digits; zero runs of up to 1100 digits compensated by the written exponent) + trailing junk, and raw numeric-alphabet strings; oracle: longest prefix of the documented syntax by regexp, value vs strconv.ParseFloat within 1e-14 relative, Inf/0 must match; non-trivial = a literal matched")
 	ev.Check(t, 30000, func(t *rapid.T) {
 		var s string
 		if rapid.IntRange(0, 3).Draw(t, "raw") == 0 {
@@ -576,7 +596,9 @@ func checkAppendDecimal(t fataler, f float64, dec int, got string) string {
 
 // ---------- AppendNumber / ParseNumber
 
-var symbols = []rune{'.', ',', '\'', ' ', '_', ' ', '٫', '٬', ' ', '€', '\U0001F600', '\U00010000', 'x'}
+var symbols = []rune{'.', ',', '\'', ' ', '_', ' ', '٫', '٬', ' ', '€', '\U0001F600', '\U00010000', 'x',
+	// the ends of the UTF-8 length classes and the runes that decoders treat specially
+	'\u007f', '\u0080', '\u07ff', '\u0800', '\ufffc', '\ufffd', '\ufffe', '\uffff', '\U0010ffff', '\u2028', '\ufeff', '\u00ad'}
 
 func TestProp_Number(t *testing.T) {
 	ev.Describe("Number", "int64 x dec 0..18 x groupSize 0..6 x distinct group/decimal symbols of 1-4 UTF-8 bytes; oracle: ParseNumber(AppendNumber(..)) == (num, dec, len), no NUL/stale byte in the output, digits grouped from the right in groups of groupSize, prefix preserved; non-trivial = >= 4 integer digits or dec > 0")
